@@ -1605,8 +1605,8 @@ def correspondence(ctx, want_driver=True):
                 ctx.broke("correspondence", "part_b_kernels (k == n) crashed", traceback.format_exc())
             for part, key in ((part_b_kernels, "kernels"), (part_b_means, "means"), (part_b_likelihoods, "liks"),
                               (part_b_exact, "exact"), (part_b_mixed, "mixed"), (part_b_variational, "var"), (part_b_nan, "nan")):
-                if key == "nan" and rnd >= 2:
-                    continue           # two value rounds of the NaN-policy cells are enough (thorough: all pairs each)
+                if key == "nan" and rnd >= 1:
+                    continue           # one value round of the NaN-policy cells (thorough: all pairs with >= 2 batch elements)
                 try:
                     part(ctx, T, sel[key])
                 except Exception:      # one family crashing must not hide the others
@@ -1745,4 +1745,5 @@ def replay(ctx, payload):
         fn()
         return not sub.failures
     finally:
+        del _TIE[:]
         torch.set_default_dtype(torch.float32)
